@@ -61,7 +61,9 @@ def gen(rng, tier):
                    lv=sorted(rng.sample(range(0, 65), 5), reverse=rng.random() < 0.7), withcf=False)  # sigma-like or height-like edges
         dl = dict(TSTEP=src['nt'], LAY=src['nl'], ROW=src['nr'], COL=src['nc'])
         ds = rng.sample(sorted(dl), rng.randint(1, 3))
-        out.append(dict(src=src, recipes=[], ops=[['slice', [[d, _win(rng, dl[d])] for d in ds]]]))
+        src['notflag'] = rng.random() < 0.2      # the time axis lives in SDATE / STIME / TSTEP only: no TFLAG variable yet
+        out.append(dict(src=src, recipes=[], ops=[['slice', [[d, _win(rng, dl[d])] for d in ds]]],
+                        redate=(rng.choice([7, 30, 366]) if (not src['notflag'] and rng.random() < 0.25) else 0)))
     # the corners of the integer selectors, in every run: the last record counted from the end (the window [-1:0] is
     # empty, [-1:] is not), the first counted from the end, and numpy integers on both horizontal axes at once
     for j in range(12):
@@ -83,6 +85,15 @@ def gen(rng, tier):
 def impl(case):
     with lib.pnc_warnings():
         f, _ = c10.build(case['src'])
+        if case.get('redate') and 'TFLAG' in f.variables:
+            # the file is re-dated in place after its times were decoded once: every flag rewritten through the variable,
+            # SDATE / STIME with them (a fully consistent file; what the object may remember of the old dates must not matter)
+            T2 = [t + dt.timedelta(days=case['redate']) for t in f.getTimes()]
+            tf = f.variables['TFLAG']
+            for i, t in enumerate(T2):
+                tf[i, :, 0] = int(t.strftime('%Y%j'))
+                tf[i, :, 1] = int(t.strftime('%H%M%S'))
+            f.SDATE, f.STIME = int(T2[0].strftime('%Y%j')), int(T2[0].strftime('%H%M%S'))
         res = dict(init=c10.obs(f), init_bad=c10.coherent(f), ops=list(case['ops']), states=[])
         T = f.getTimes()
         res['src_times'] = [int(t.strftime('%Y%j%H%M%S')) for t in T]
